@@ -1,4 +1,5 @@
 """C02 — metavariables bind by kind and bind consistently."""
+import base64, re
 import vlib, enginecorr, enginegen, enginecheck
 from c01 import TRUSTED
 
@@ -171,6 +172,20 @@ def main():
     src = "package p\n\nfunc h() {\n" + "".join("\t_ = wrap(%s)\n\t_ = same(%s, %s)\n" % (e, e, e) for e in EXPR_FILLERS) + "}\n"
     pairs.append(("p.patch", b"@@\nvar x expression\n@@\n-wrap(x)\n+unwrap(x)\n", "a.go", src.encode())); names.append("expr-node-types"); metas.append({"family": "expr-node-types", "must_parse": True})
     pairs.append(("p.patch", b"@@\nvar x expression\n@@\n-same(x, x)\n+once(x)\n", "a.go", src.encode())); names.append("expr-node-types"); metas.append({"family": "expr-node-types", "must_parse": True})
+    # what implements ast.Expr without being an expression: the 'key: value' of a composite literal, the '...' of [...]T and of a
+    # variadic parameter.  An expression metavariable does not stand for them (repo fix ac95f62): the sites beside them are rewritten
+    NONEXPR = [
+        ("kv-element", "@@\nvar x expression\n@@\n-foo(T{x})\n+bar(x)\n", "func h() {\n\tfoo(T{n: 1})\n\tfoo(T{2})\n\tfoo(T{k: v})\n\tfoo(T{g(3)})\n}\n", 2),
+        ("kv-map", "@@\nvar x expression\n@@\n-m(map[string]int{x})\n+n(x)\n", "func h() {\n\tm(map[string]int{\"a\": 1})\n\tm(map[string]int{b})\n}\n", 1),
+        ("kv-two", "@@\nvar x, y expression\n@@\n-foo(T{x, y})\n+bar(y, x)\n", "func h() {\n\tfoo(T{a: 1, b: 2})\n\tfoo(T{1, 2})\n\tfoo(T{1, b: 2})\n}\n", 1),
+        ("array-len", "@@\nvar n expression\n@@\n-use([n]int{1})\n+use2(n)\n", "func h() {\n\tuse([...]int{1})\n\tuse([3]int{1})\n\tuse([k + 1]int{1})\n}\n", 2),
+        ("variadic-type", "@@\nvar f identifier\nvar x expression\n@@\n-func f(a x) {\n+func f(a x, b x) {\n   ...\n }\n",
+         "func g(a int) {\n\tone()\n}\n\nfunc h(a ...int) {\n\ttwo()\n}\n\nfunc k(a []int) {\n\tthree()\n}\n", 2),
+        ("same-kv", "@@\nvar x expression\n@@\n-same(T{x}, T{x})\n+once(x)\n", "func h() {\n\tsame(T{n: 1}, T{n: 1})\n\tsame(T{7}, T{7})\n}\n", 1),
+    ]
+    for nm, pt, body, nsites in NONEXPR:
+        pairs.append(("p.patch", pt.encode(), "a.go", ("package p\n\n" + body).encode())); names.append("non-expression:" + nm)
+        metas.append({"family": "non-expression-fillers", "must_parse": True, "sites": nsites})
     for nm, p, f, meta in enginegen.extra_pairs():
         pairs.append(("p.patch", p, "a.go", f)); names.append(nm); metas.append(meta)
     res = enginecorr.run(pairs)
@@ -181,6 +196,14 @@ def main():
             for pl in meta.get("planted", []):
                 ck.tally("second_occurrence", pl["kind"])
         enginecheck.report(ck, name, pair, o, "any", meta)
+        if meta and meta.get("family") == "non-expression-fillers":
+            r_ = o["impl"]
+            outb = base64.b64decode(r_["out"]) if r_.get("out") else b""
+            marks = len(re.findall(rb"\b(bar|n|use2|once)\(|, b ", outb))
+            if o["skipped"] or marks != meta["sites"]:
+                ck.violation("%s: %d site(s) hold an expression where the metavariable stands and must be rewritten, the sites with 'key: value' or '...' "
+                             "there must not; gopatch rewrote %d" % (name, meta["sites"], marks),
+                             {"patch": pair[1].decode(), "file": pair[3].decode(), "output": outb.decode("utf-8", "replace")})
     g = len(pairs) - n + 4
     ck.sample({"case": names[g], "patch": pairs[g][1].decode(), "file": pairs[g][3].decode(), "planted": metas[g]["planted"]})
     ck.sample({"case": names[g + 3], "patch": pairs[g + 3][1].decode(), "file": pairs[g + 3][3].decode()})
